@@ -1,6 +1,6 @@
 """C09 — every node gets a unique id and author ids are kept."""
 import json, re
-import core, mml, canon_run
+import core, mml, canon_run, clean_run
 from canon_run import N
 
 NAV = ["ZoomIn", "ZoomOut", "MoveNext", "MovePrevious", "ZoomInAll", "ZoomOutAll", "MoveStart", "MoveEnd", "MoveLineStart", "MoveLineEnd",
@@ -37,7 +37,10 @@ def run(ctx):
     pr, im, mo = canon_run.standard(ctx, "C09", "", [
         "modelled, not verified: add_ids / add_ids_to_all of src/interface.rs (MC.Xml.addIds); the prefix (time + random) is an input of the model, taken from the implementation's first generated id; "
         "the model is run on every returned tree with the generated ids stripped and must reproduce them exactly",
-        "not modelled: how canonicalization carries author ids through restructuring (add_attrs, replace_children, merging) and which ids navigation, bookmarks and braille positions hand out; "
+        "modelled, not verified: how the clean-up pass carries author ids (MC.Clean with add_attrs transcribed for the lifts): clean_ids / clean_ids_nodup (MC/Props/C09Clean.lean) -- the ids of "
+        "what the skeleton returns are a sublist of the input's, for every tree and parent context; tied to the library on every run by hook H7 on generated trees with author ids (ids compared "
+        "element by element inside the fragment guard)",
+        "not modelled: how the REST of canonicalization carries author ids (sibling merges, number folding, re-bracketing, chemistry) and which ids navigation, bookmarks and braille positions hand out; "
         "those clauses are checked on the implementation (generated trees x generated call sequences), not proved",
         "'stays on the element carrying that token's text' is read as: if the author id is still present, that element's text contains the token's normalised text; and an author id may only disappear "
         "when its token was merged into another token (the number of output leaves with that text differs from the input's)"])
@@ -172,6 +175,10 @@ def run(ctx):
                     handed_kinds["bpos"] += 1
                     if r["v"][0] not in ids:
                         oracle_fail.append({"why": "id handed out by braille position is not in the returned MathML", "xml": it["xml"], "id": r["v"][0], "lines": lines + [{"op": "from_bpos", "pos": p}], "out": sm["v"]})
+    # the clean-up skeleton with author ids (clean_ids is proved about it) against the library's clean-up phase, hook H7
+    cl = clean_run.run(ctx, im, mo, 2000 if ctx.tier == "quick" else 40000)
+    cl_in = [r for r in cl if r.get("in_guard")]
+    cl_dis = sorted([r for r in cl_in if not r["agree"]], key=lambda r: len(r["xml"]))
     im.close()
     mo.close()
     kinds = {}
@@ -184,7 +191,10 @@ def run(ctx):
                 "non-trivial = input carrying author ids",
         "author_token_ids": n_author_ids, "author_token_ids_kept": n_author_kept, "author_token_ids_lost_with_merged_or_removed_token": n_author_lost_merge, "lost_examples": lost_examples,
         "add_ids_comparisons": len(add_items), "add_ids_comparisons_on_inputs_with_unchanged_structure": n_same_structure[0], "histories": len(hist), "ids_handed_out_checked": n_handed, "ids_handed_out_by_kind": handed_kinds,
-        "model_vs_impl_disagreements": [{k: v for k, v in d.items() if k != "lines"} for d in disagreements[:8]], "n_disagreements": len(disagreements),
+        "model_vs_impl_disagreements": [{k: v for k, v in d.items() if k != "lines"} for d in disagreements[:8]], "n_disagreements": len(disagreements) + len(cl_dis),
+        "clean_correspondence": {"trees": len(cl), "in_fragment": len(cl_in), "with_author_ids": sum(1 for r in cl_in if " id=" in r["xml"]), "disagreements": len(cl_dis),
+                                 "first_disagreements": [{"xml": r["xml"], "impl": r["impl_shape"] if r["impl_shape"] is not None else r["impl"], "model": r["model_shape"]} for r in cl_dis[:4]],
+                                 "out_of_fragment_reasons": clean_run.reason_counts(cl)},
         "impl_vs_oracle_failures": [{k: v for k, v in f.items() if k != "lines"} for f in oracle_fail[:8]], "n_oracle_failures": len(oracle_fail), "oracle_failure_kinds": kinds,
     })
     for f in oracle_fail:
@@ -193,6 +203,12 @@ def run(ctx):
     found = bool(ctx.violations)
     if not pr["ok"] and not found:
         ctx.violation("theorem(s) no longer check: " + ", ".join(pr["failed"]), {"kind": "theorem", "theorems": pr["failed"], "lean_output": pr["output"][-1500:]}, tag="theorem", no_input=True)
+    if cl_dis and not found:
+        r = cl_dis[0]
+        ctx.violation("correspondence MC.Clean (clean-up skeleton, author ids included) vs verif_clean_only no longer holds on %d of %d in-fragment trees, e.g. %s" % (len(cl_dis), len(cl_in), r["xml"][:300]),
+                      {"kind": "correspondence", "correspondence": "MC.Clean.cleanMath vs hook H7 verif_clean_only", "input": r["xml"], "impl": r["impl_shape"] if r["impl_shape"] is not None else r["impl"],
+                       "model": r["model_shape"], "lines": r["lines"]}, tag="corr", no_input=True)
+        found = True
     if disagreements and not found:
         d = disagreements[0]
         ctx.violation("model and implementation assign ids differently: " + json.dumps({k: v for k, v in d.items() if k != "lines"}, ensure_ascii=False)[:400],
